@@ -228,9 +228,51 @@ func (x *Exec) builtin(st *State, name string, e *ast.CallExpr, k func(*State, [
 			r := x.alloc(st, "make")
 			r.T = t
 			k(st, []Term{r})
+		case *types.Slice:
+			// make([]T, n[, c]): a fresh backing array of zero values
+			es, et := x.elemSortOf(t)
+			x.exprList(st, e.Args[1:], func(st *State, vs []Term) {
+				n := vs[0].S
+				c := n
+				if len(vs) > 1 {
+					c = vs[1].S
+				}
+				x.oblige(st, "no-panic", "no-panic[make-len]", fmt.Sprintf("(and (<= 0 %s) (<= %s %s))", n, n, c), e)
+				st.assume(fmt.Sprintf("(and (<= 0 %s) (<= %s %s))", n, n, c))
+				base := x.alloc(st, "arr")
+				asort := "(Array Int " + es + ")"
+				zero := fmt.Sprintf("((as const %s) %s)", asort, x.d.zeroOf(et).S)
+				x.writeField(st, elemKey(es), asort, base.S, zero)
+				k(st, []Term{{S: fmt.Sprintf("(mkSlice %s 0 %s %s)", base.S, n, c), Sort: "Slice", T: t}})
+			})
 		default:
 			x.undecide("make of %s at %s", t, x.prog.pos(e))
 		}
+	case "copy":
+		// copy(dst, src): min(len(dst), len(src)) elements, as if through a temporary (overlap-safe)
+		x.expr(st, e.Args[0], func(st *State, dst Term) {
+			x.expr(st, e.Args[1], func(st *State, src Term) {
+				if dst.Sort != "Slice" || src.Sort != "Slice" {
+					if dst.Sort == "Nil" || src.Sort == "Nil" {
+						k(st, []Term{tInt("0")})
+						return
+					}
+					x.undecide("copy of %s at %s", src.Sort, x.prog.pos(e))
+					return
+				}
+				es, _ := x.elemSortOf(x.info.TypeOf(e.Args[0]))
+				asort := "(Array Int " + es + ")"
+				m := fmt.Sprintf("(ite (<= (s_len %s) (s_len %s)) (s_len %s) (s_len %s))", dst.S, src.S, dst.S, src.S)
+				arrD := x.elemArr(st, es, "(s_base "+dst.S+")")
+				arrS := x.elemArr(st, es, "(s_base "+src.S+")")
+				x.checkWriteFrame(st, elemKey(es), "(s_base "+dst.S+")", e)
+				res := x.d.fresh("copied", asort)
+				st.pc = append(st.pc, fmt.Sprintf("(forall ((q!b Int)) (= (select %s q!b) (ite (and (<= (s_off %s) q!b) (< q!b (+ (s_off %s) %s))) (select %s (+ (s_off %s) (- q!b (s_off %s)))) (select %s q!b))))", res, dst.S, dst.S, m, arrS, src.S, dst.S, arrD))
+				st.assume(sImp(fmt.Sprintf("(> %s 0)", m), sEq(fmt.Sprintf("(select %s (s_off %s))", res, dst.S), fmt.Sprintf("(select %s (s_off %s))", arrS, src.S))))
+				x.writeField(st, elemKey(es), asort, "(s_base "+dst.S+")", res)
+				k(st, []Term{{S: m, Sort: "Int", T: types.Typ[types.Int]}})
+			})
+		})
 	case "new":
 		t := x.info.TypeOf(e)
 		r := x.alloc(st, "new")
@@ -775,6 +817,9 @@ func (x *Exec) checkWriteFrame(st *State, key, ref string, pos ast.Node) {
 			switch l := loc.(type) {
 			case *cxIdent:
 				if l.Name == "AST" && astInitKeys[key] {
+					alts = append(alts, "true")
+				}
+				if l.Name == "elems" && strings.HasPrefix(key, "elem:") {
 					alts = append(alts, "true")
 				}
 			case *cxSel:
